@@ -91,6 +91,13 @@ func (e *Exec) call2(call *ast.CallExpr, c *Ctx, want int) []Term {
 			}
 		}
 	}
+	if ix, ok := fun.(*ast.IndexListExpr); ok {
+		if tv, ok := info.Types[ix.X]; ok {
+			if _, isSig := tv.Type.Underlying().(*types.Signature); isSig {
+				fun = unparen(ix.X)
+			}
+		}
+	}
 	switch f := fun.(type) {
 	case *ast.Ident:
 		switch obj := info.Uses[f].(type) {
@@ -311,9 +318,15 @@ func (e *Exec) dispatch(fn *types.Func, recv *Term, args []Term, call *ast.CallE
 			sel = nil
 		}
 	}
-	if ct := e.prog.contractFor(fn); ct != nil && !(ct.Inline && ct.Kind == "func") {
-		return e.applyContract(ct, fn, sig, recv, args, call, c)
+	if ct := e.prog.contractFor(fn); ct != nil && !(ct.Inline && ct.Kind == "func") && !(ct.Kind == "func" && e.prog.isPure(fn)) {
+		saved := e.curInst
+		e.curInst = inst // explicit / inferred type arguments of a generic callee: its result and parameter types are instantiated
+		r := e.applyContract(ct, fn, sig, recv, args, call, c)
+		e.curInst = saved
+		return r
 	}
+	// (a function declared pure AND given a contract: callers see the deterministic function, its body is verified
+	// against the contract on its own)
 	if e.prog.isPure(fn) {
 		return e.pureCall(name, recv, args, call, c)
 	}
@@ -1017,7 +1030,7 @@ func (e *Exec) applyContract(ct *Contract, fn *types.Func, sig *types.Signature,
 	var subst map[*types.TypeParam]types.Type
 	if fn != nil {
 		if fi := e.prog.funcs[fullName(fn)]; fi != nil {
-			subst = e.calleeSubst(fi, recv, c, nil)
+			subst = e.calleeSubst(fi, recv, c, e.curInst)
 		}
 	}
 	if subst == nil {
